@@ -5,8 +5,8 @@ from .. import tlc
 LEVEL = "model_checking"
 MANIFEST = dict(
     category="model_checking",
-    text="Subtraj.tla transcribes add_sample/sample_batch of the subtrajectory buffers section by section; TLC checks WindowsValid (contiguous, single episode, in order, no truncated step, only written slots, for every admissible start and every sampling horizon) on all histories of normal/terminating/truncating steps within the bounds; every transition of the state graph, including a Sample edge for every admissible start x horizon x view, is replayed into SubtrajectoryReplayBuffer and SubtrajectoryReplayBufferPER and the returned windows (full and reduced view) are compared field by field with the model's rows.",
-    note="bounds: N<=5,H<=2,13 adds quick; N<=7,H<=3,17 adds thorough; prefix reading of the statement (rows after the first terminated step are only required to be written slots); trusted: harness/bufkit.py tag coding, stub generator, TLC",
+    text="Subtraj.tla transcribes add_sample/sample_batch of the subtrajectory buffers section by section; TLC checks WindowsValid (contiguous, single episode, in order, no truncated step, only written slots, for every admissible start and every sampling horizon) on all histories of normal / terminating / truncating / terminating-and-truncating (both flags on one step, as under a TimeLimit wrapper; a truncated step - its episode tail is never admissible) steps within the bounds, from the smallest admissible capacity N = H + 1 upwards; every transition of the state graph, including a Sample edge for every admissible start x horizon x view, is replayed into SubtrajectoryReplayBuffer and SubtrajectoryReplayBufferPER and the returned windows (full and reduced view) are compared field by field with the model's rows.",
+    note="bounds: H+1<=N<=5,H<=3,13 adds quick; H+1<=N<=7,H<=3,17 adds thorough; the two largest replayed quick configurations without the both-flags step; prefix reading of the statement (rows after the first terminated step are only required to be written slots); trusted: harness/bufkit.py tag coding, stub generator, TLC",
     technique="TLA+ spec + TLC exhaustive over add histories; transition-coverage replay into the real buffers",
 )
 
@@ -15,33 +15,39 @@ def run(rep):
     quick = rep.tier == "quick"
     tlc.sany("Subtraj")
     rep.rule = (
-        "TLC enumerates all histories of cont/term/trunc additions within the bound; each graph transition (incl. one Sample per admissible "
+        "TLC enumerates all histories of cont/term/trunc/both (terminated and truncated at once) additions within the bound, capacities from N = H + 1; each graph transition (incl. one Sample per admissible "
         "start x sampling horizon x view) is replayed into the real buffer; non-trivial = pre-state non-empty"
     )
-    cfgs = [(3, 1, 7, False), (4, 2, 8, False), (5, 3, 7, False), (4, 2, 5, True)] if quick else [
-        (2, 1, 7, False), (3, 1, 9, False), (3, 2, 9, False), (4, 2, 11, False), (4, 3, 10, False), (5, 2, 11, False), (5, 3, 10, False),
-        (6, 3, 9, False), (7, 3, 9, False), (4, 2, 6, True), (5, 3, 6, True)]
+    # (N, H, adds, prioritized, kinds): kinds 4 = cont / term / trunc / both (terminated and truncated at once), 3 = without
+    # "both" (the largest configurations, to stay within the budget).  Capacities from the smallest admissible one,
+    # N = H + 1 (where the start enabled by a step, H behind the write position, is the slot the successor row goes to),
+    # with enough additions for episodes longer than H that end before and after the buffer has wrapped
+    cfgs = [(2, 1, 6, False, 4), (3, 2, 7, False, 4), (4, 3, 6, False, 4), (3, 1, 7, False, 4), (4, 2, 8, False, 4), (5, 3, 7, False, 3),
+            (3, 2, 5, True, 4), (4, 2, 5, True, 3)] if quick else [
+        (2, 1, 8, False, 4), (3, 2, 9, False, 4), (4, 3, 10, False, 4), (3, 1, 9, False, 4), (4, 2, 11, False, 4), (5, 2, 11, False, 4),
+        (5, 3, 10, False, 4), (6, 3, 9, False, 4), (7, 3, 9, False, 4), (2, 1, 5, True, 4), (3, 2, 6, True, 4), (4, 2, 6, True, 4), (5, 3, 6, True, 4)]
     ev = nt = 0
     from .. import par
 
-    jobs = [(n, h, m, prio, (1,), 1, tuple(sb.INV_C04 + (sb.INV_C08 if prio else [])), "", True, rep.seed, 4) for n, h, m, prio in cfgs]
+    jobs = [(n, h, m, prio, (1,), 1, tuple(sb.INV_C04 + (sb.INV_C08 if prio else [])), "", True, rep.seed, 4, False, 1, (), k == 4)
+            for n, h, m, prio, k in cfgs]
     # the same buffers as task 0 of a MultiTaskReplayBuffer while task 1 receives unrelated steps
-    jobs += [(n, h, m, prio, (1,), 1, tuple(sb.INV_C04), "(multi-task)", True, rep.seed, 4, True)
-             for n, h, m, prio in ([(4, 2, 6, False), (3, 1, 4, True)] if quick else [(4, 2, 8, False), (5, 3, 7, False), (4, 2, 5, True)])]
-    for o in par.pmap(sb.config_job, jobs, procs=4):
+    jobs += [(n, h, m, prio, (1,), 1, tuple(sb.INV_C04), "(multi-task)", True, rep.seed, 4, True, 1, (), True)
+             for n, h, m, prio in ([(3, 2, 6, False), (4, 2, 6, False), (3, 1, 4, True)] if quick else
+                                   [(3, 2, 8, False), (4, 2, 8, False), (5, 3, 7, False), (2, 1, 5, True), (4, 2, 5, True)])]
+    jobs = [("config", j) for j in jobs]
+    # deeper model-only exploration (no replay): longer histories, four kinds of steps, from the smallest capacity; and the canaries
+    deep = [(3, 2, 13), (5, 2, 13), (5, 3, 13)] if quick else [(4, 3, 15), (6, 3, 15), (7, 3, 17)]
+    jobs += [("deep", (n, h, m, 4, 4)) for n, h, m in deep] + [("canaries", (4,))]
+    # the pool hands the jobs out in this order: longest first
+    cost = {"config": lambda a: (a[0] + a[1]) * a[2] * (2 if a[3] else 1), "canaries": lambda a: 0,
+            "deep": lambda a: (a[0] + a[1]) * a[2] * (0.2 if quick else 4)}
+    jobs.sort(key=lambda j: -cost[j[0]](j[1]))
+    for o in par.pmap(sb.job, jobs, procs=4):
         out = sb.merge(rep, o)
         if out:
             ev += out[0]
             nt += out[1]
-    # deeper model-only exploration (no replay): longer histories
-    deep = [(5, 2, 13), (5, 3, 13)] if quick else [(6, 3, 15), (7, 3, 17)]
-    for n, h, m in deep:
-        c = dict(N=n, H=h, MaxAdds=m, PRIO=False, PrioVals={1}, MaxBatch=1, EMIT=False)
-        r = tlc.run("Subtraj", tlc.cfg_text(constants=c, invariants=sb.INV_C04), tag="stdeep", timeout=1500)
-        rep.add_tlc(r, f"Subtraj model-only N={n} H={h} adds<={m}")
-        if not r.ok:
-            rep.violation(f"spec:Subtraj:{r.violated}", f"design-level violation {r.violated}", r.error_trace)
-    sb.canaries()
     rep.evaluations, rep.distinct, rep.exhaustive = ev, nt, True
     rep.assumptions += ["capacities / horizons beyond the bound not explored", "trusted: tag coding and projection in harness/bufkit.py"]
 
